@@ -1,8 +1,4 @@
 import Driver.Proto
 import Driver.Mem
-import Driver.Load
 open Lean
-def main : IO Unit := Driver.run (fun j =>
-  match Driver.getStr j "op" with
-  | .ok o => if o.startsWith "load." then Driver.Load.handle j else Driver.Mem.handle j
-  | .error _ => Driver.Mem.handle j)
+def main : IO Unit := Driver.run Driver.Mem.handle
